@@ -70,10 +70,10 @@ func Parse(filename string, data []byte) (*File, error) {
 			if !ok {
 				return corrupt()
 			}
-			if _, ok := f.Count[string(ename)]; ok {
+			ctrName := DecodeStack(string(ename))
+			if _, ok := f.Count[ctrName]; ok {
 				return corrupt()
 			}
-			ctrName := DecodeStack(string(ename))
 			f.Count[ctrName] = v.Load()
 			off = next
 		}
